@@ -57,6 +57,7 @@ func writeEvidence(prop, tier string, seed int, outs []*harnessOutcome, ld *load
 		Spurious      int               `json:"spurious_counterexamples"`
 		ConcLoss      map[string]int64  `json:"text_only_concretisations,omitempty"`
 		NativeCalls   map[string]int64  `json:"native_calls"`
+		Lemmas        []lemmaResult     `json:"regular_language_lemmas,omitempty"`
 	}
 	var hev []hEv
 	funcs := map[string]int{}
@@ -75,6 +76,13 @@ func writeEvidence(prop, tier string, seed int, outs []*harnessOutcome, ld *load
 			SolverS: r.Solver.Duration.Seconds(), WallS: r.Wall.Seconds(), Steps: r.Steps, UnwindHits: r.UnwindHits,
 			Deadlocks: r.Deadlocks, Covers: r.Covers, Asserts: r.Asserts, AssertsSym: r.AssertsSymbolic,
 			Violations: len(o.newV), Spurious: len(o.spur), ConcLoss: r.ConcLoss, NativeCalls: r.NativeCalls}
+		e.Lemmas = o.lemmas
+		for _, l := range o.lemmas {
+			obligations++
+			queries++
+			solverS += l.Seconds
+			_ = l
+		}
 		if e.Unwind == 0 {
 			e.Unwind = 32
 		}
